@@ -1,6 +1,6 @@
 (* Extraction of the dsh output-path model.  ExtrOcamlBasic only. *)
 From Coq Require Import ExtrOcamlBasic.
-From PV Require Import Dsh.Output Dsh.Dispatch Dsh.Exit.
+From PV Require Import Dsh.Output Dsh.Dispatch Dsh.Exit Dsh.Domain.
 Extraction Language OCaml.
 Set Extraction KeepSingleton.
-Extraction "dsh_model.ml" run_stream extract_rc label Dispatch.step Dispatch.init Dispatch.inflight Exit.run_exit.
+Extraction "dsh_model.ml" run_stream extract_rc label Dispatch.step Dispatch.init Dispatch.inflight Exit.run_exit Domain.domain_in_label.
